@@ -184,6 +184,14 @@ Theorem direction_wall_order_refuted : exists a b c1 c2,
 Proof. exact diff_wall_order_refuted_lemma. Qed.
 Print Assumptions direction_wall_order_refuted.
 
+(* ... the same wall-clock comparison inside precise_diff (`d1 == d2`): the two occurrences of ONE wall time in one zone, one hour apart,
+   compare equal and the pure-Python helper reports all components 0 (the compiled one, which has no such shortcut, reports the hour) ... *)
+Theorem same_wall_two_occurrences_refuted : exists a b,
+  p_instant b - p_instant a = 3600 * 1000000 /\
+  diff_comps false a b = Ok (mkcomp 0 0 0 0 0 0 0, false) /\ diff_comps true a b = Ok (mkcomp 0 0 0 0 1 0 0, false).
+Proof. exact same_wall_two_occurrences_refuted_lemma. Qed.
+Print Assumptions same_wall_two_occurrences_refuted.
+
 (* ... and holds for aware values with different tzinfo objects, or with equal offsets *)
 Theorem direction_follows_instants_partial : forall rs a b c inv,
   p_aware a = true -> p_aware b = true -> (p_tzobj a <> p_tzobj b \/ p_offset a = p_offset b) ->
